@@ -17,7 +17,10 @@
 (*   UEnd(ok)   the bucket answers, or the request fails / the client gives *)
 (*              up on a stalled one / it is cancelled; success records the *)
 (*              generation read by Check as covered                        *)
-(*   WaitOver   a minute has passed since the wait began                   *)
+(*   WaitOver   at least a minute has passed since the wait began (the     *)
+(*              pinned code wakes after exactly one; an implementation may *)
+(*              wait longer, e.g. back off after failures -- C17 says "at  *)
+(*              most once a minute" -- but not longer than MaxWait)        *)
 (*   Exit       the server's context is cancelled: the task ends -- from   *)
 (*              the wait at once, from an upload as soon as it fails       *)
 (* Environment: DbWrite, S3Mode, Cancel, Advance.                          *)
@@ -29,13 +32,15 @@
 (***************************************************************************)
 EXTENDS Integers, Sequences, FiniteSets, TLC
 
-CONSTANTS Nil
+CONSTANTS Nil,
+          MaxWait    \* the longest the task may stay in one wait (>= Minute): "retried" and "once writes stop the newest backup
+                     \* equals the current file" need some bound; the pinned code waits exactly one minute
 
 VARIABLES gen,        \* write generation of the database = version of the live file
           last,       \* generation covered by the last successful upload (0: none yet)
           pc,         \* "check" | "read" | "ubegin" | "upload" | "wait" | "exited"
           cur,        \* the iteration in progress: [g: generation read by Check, body: file version read, since: upload start]
-          until,      \* end of the current wait
+          until,      \* earliest end of the current wait (its start + Minute); Latest is its latest end
           s3,         \* "ok" | "fail" | "hold"      how the bucket treats requests
           cancelled,
           now,
@@ -93,8 +98,12 @@ UEnd(ok) ==
   /\ out' = Event("uend", [ok |-> ok])
   /\ UNCHANGED <<gen, cur, s3, cancelled, now, quiet>>
 
+\* A wake that finds nothing to do is invisible and only pushes the next wake further away, so it is modelled at the two ends
+\* of the window only; a wake that finds the database changed (and therefore uploads) may come at any moment of the window.
+Latest == until + (MaxWait - Minute)
 WaitOver ==
   /\ pc = "wait" /\ ~cancelled /\ now >= until
+  /\ (gen # last \/ now = until \/ now >= Latest)
   /\ pc' = "check"
   /\ out' = Event("wake", [t |-> now])
   /\ UNCHANGED <<gen, last, cur, until, s3, cancelled, now, ups, quiet>>
@@ -124,11 +133,11 @@ Cancel ==
 \* a step of the task is due now: the clock waits for it
 Urgent ==
   \/ pc \in {"check", "read", "ubegin"}
-  \/ (pc = "wait" /\ (cancelled \/ now >= until))
+  \/ (pc = "wait" /\ (cancelled \/ now >= Latest))
   \/ (pc = "upload" /\ (s3 # "hold" \/ MustFail))
-Timers == IF pc = "wait" THEN {until} ELSE {}
+Timers == IF pc = "wait" THEN {until, Latest} ELSE {}
 Advance(t) ==
-  /\ t > now /\ ~Urgent /\ \A d \in Timers : t <= d
+  /\ t > now /\ ~Urgent /\ \A d \in Timers : (d > now => t <= d)
   /\ now' = t
   /\ out' = Event("adv", [t |-> t])
   /\ UNCHANGED <<gen, last, pc, cur, until, s3, cancelled, ups, quiet>>
@@ -148,5 +157,5 @@ CoverExact == [][(out'.ev = "uend" /\ out'.ok) => (last' = cur.g /\ last' <= cur
 \* a failed upload is retried and, once writes stop, the newest backup equals the current file: as a state
 \* predicate -- when the database and a healthy bucket have been left alone for more than two minutes, the
 \* last successful upload covers the current file
-Settled == (~cancelled /\ s3 = "ok" /\ pc = "wait" /\ now - quiet > 2 * Minute) => last = gen
+Settled == (~cancelled /\ s3 = "ok" /\ pc = "wait" /\ now - quiet > MaxWait + Minute) => last = gen
 =============================================================================
